@@ -50,12 +50,19 @@ class Q:
     __rmul__ = __mul__
 
     def inv(a):
-        return Q(a.den * a.re, -a.den * a.im, a.re * a.re + a.im * a.im)
+        r = getattr(a, "_recip", None)
+        if r is not None:
+            return r                      # 1/(1/z) is z: keeps expressions from growing (exact)
+        r = type(a)(a.den * a.re, -a.den * a.im, a.re * a.re + a.im * a.im)
+        r._recip = a
+        return r
 
     def __truediv__(a, b):
         return a * Q.lift(b).inv()
 
     def __rtruediv__(a, b):
+        if isinstance(b, (int, float)) and b == 1:
+            return a.inv()
         return Q.lift(b) * a.inv()
 
     def ipow(a, n: int):
